@@ -455,11 +455,25 @@ def unwrap_caches():
 class CountingLogger:
     """S6: stand-in for a module logger."""
 
-    def __init__(self):
+    def __init__(self, debug_on=False):
         self.warnings = []
+        self.debug_on = debug_on          # an application that has switched the library's loggers to DEBUG
+        self.lower = []
 
     def warning(self, msg, *a, **k):
         self.warnings.append(msg)
+
+    def isEnabledFor(self, level):
+        return level >= (10 if self.debug_on else 30)
+
+    def getEffectiveLevel(self):
+        return 10 if self.debug_on else 30
+
+    def debug(self, msg, *a, **k):
+        if self.debug_on:
+            self.lower.append(msg % a if a else msg)      # the message is really formatted, as a handler would
+
+    info = debug
 
     def __getattr__(self, name):
         def _f(*a, **k):
